@@ -636,8 +636,8 @@ func (s *vC07DocStore) WriteUpdateWithXattrs(ctx context.Context, k string, xatt
 
 func TestVerif_C07_DocLedger(t *testing.T) {
 	var scns []vC07DocScn
-	vReadJSON(t, "VERIF_BEH", &scns)
-	tw := vOpenTrace(t, "VERIF_TRACE_OUT")
+	vReadJSON(t, "VERIF_BEH_DOC", &scns)
+	tw := vOpenTrace(t, "VERIF_TRACE_OUT_DOC")
 	defer tw.Close()
 
 	ctx := base.TestCtx(t)
